@@ -153,10 +153,7 @@ fn on_drop(id: u32, magic: u32, what: &str) {
 
 fn check_live(id: u32, magic: u32, what: &str) -> Result<(), String> {
     if magic != id ^ K {
-        return Err(format!(
-            "corrupt {} id={:#x} magic={:#x}",
-            what, id, magic
-        ));
+        return Err(format!("corrupt {} id={:#x} magic={:#x}", what, id, magic));
     }
     match state(id) {
         LIVE_S => Ok(()),
@@ -225,7 +222,9 @@ fn cb_tick() {
 
 // ---- the payload trait ------------------------------------------------------------------
 
-pub trait Pay: Sized + Clone + PartialEq + Eq + PartialOrd + Ord + Hash + fmt::Debug + 'static {
+pub trait Pay:
+    Sized + Clone + PartialEq + Eq + PartialOrd + Ord + Hash + fmt::Debug + 'static
+{
     const NAME: &'static str;
     const HAS_ID: bool;
     fn make(tag: u64) -> Self;
@@ -393,7 +392,10 @@ impl Pay for TV {
         self.core.check()?;
         for (i, b) in self.buf.iter().enumerate() {
             if *b != self.core.tag.wrapping_add(i as u64) {
-                return Err(format!("TV buffer torn/stale: id={} tag={} buf[{}]={}", self.core.id, self.core.tag, i, b));
+                return Err(format!(
+                    "TV buffer torn/stale: id={} tag={} buf[{}]={}",
+                    self.core.id, self.core.tag, i, b
+                ));
             }
         }
         Ok(())
